@@ -31,3 +31,44 @@ pub fn attribute_nak(
 ) -> Option<usize> {
     super::packet_handler::attribute_nak(connections, seq_tracker, nak, current_time_ms)
 }
+
+/// What the stamping loop of the housekeeping arm left ON the connections (the four verdict fields
+/// selection reads), one row list per tick of the running loop. The published statistics take the
+/// verdicts from the classifier / controller results, not from these fields, so nothing else shows
+/// them; a harness that runs the real loop reads and clears the log.
+pub mod stamp_log {
+    use std::net::IpAddr;
+    use std::sync::Mutex;
+
+    use srtla_core::connection::SrtlaConnection;
+
+    /// (local ip, conn id, weak, cc_backing_off, cc_target_bps, loss_degraded)
+    pub type Row = (IpAddr, u64, bool, bool, u64, bool);
+
+    static LOG: Mutex<Vec<Vec<Row>>> = Mutex::new(Vec::new());
+
+    pub fn record(conns: &[SrtlaConnection]) {
+        let mut log = LOG.lock().unwrap_or_else(|e| e.into_inner());
+        if log.len() < 100_000 {
+            log.push(
+                conns
+                    .iter()
+                    .map(|c| {
+                        (
+                            c.local_ip,
+                            c.conn_id,
+                            c.weak,
+                            c.cc_backing_off,
+                            c.cc_target_bps,
+                            c.loss_degraded,
+                        )
+                    })
+                    .collect(),
+            );
+        }
+    }
+
+    pub fn take() -> Vec<Vec<Row>> {
+        std::mem::take(&mut *LOG.lock().unwrap_or_else(|e| e.into_inner()))
+    }
+}
